@@ -28,6 +28,16 @@ import (
 
 const Root = "/verif"
 
+// outRoot is where replay files and evidence go: Root, unless the development aid bin/check-at (which runs the
+// checks against a scratch copy of the repository) redirects them with VERIF_OUT so that the evidence of the
+// registered checks is not overwritten.
+func outRoot() string {
+	if d := os.Getenv("VERIF_OUT"); d != "" {
+		return d
+	}
+	return Root
+}
+
 type Violation struct {
 	Sig    string `json:"sig"`    // stable signature (dedupe, known-finding match)
 	Clause string `json:"clause"` // the oracle clause that failed
@@ -310,7 +320,7 @@ func exe() string {
 }
 
 func WorkDir(id string) string {
-	d := filepath.Join(Root, "work", id)
+	d := filepath.Join(outRoot(), "work", id)
 	os.MkdirAll(d, 0o755)
 	return d
 }
@@ -655,8 +665,8 @@ func writeEvidence(a *Agg, start time.Time, nViol, nKnown int) {
 		"violations":  nViol,
 	}
 	b, _ := json.MarshalIndent(ev, "", " ")
-	os.MkdirAll(filepath.Join(Root, "evidence"), 0o755)
-	os.WriteFile(filepath.Join(Root, "evidence", p.ID+".json"), b, 0o644)
+	os.MkdirAll(filepath.Join(outRoot(), "evidence"), 0o755)
+	os.WriteFile(filepath.Join(outRoot(), "evidence", p.ID+".json"), b, 0o644)
 }
 
 // Replay re-executes the case of a replay file against the current tree.
